@@ -409,21 +409,6 @@ def unionMemberSkipped : SType → Bool
   | .list _ item => unionMemberSkipped item
   | .union _ ms => skippedAny ms
 
-/-- trigger of finding F20g: a list decoded with more than one prototype (its item type is a
-union), and the first prototype does not decode every item -/
-def listOfUnionMixed (T : SType) (text : String) : Bool :=
-  T.isList &&
-  (match T.protos with
-   | p :: _ :: _ => !(tryProto true text p []).2
-   | _ => false)
-
-/-- the Python constructor of prototype `b` accepts `s` although `s` is not in the XSD lexical space -/
-def pyOnly (b : B) (s : String) : Bool := (pyDecode b s).isSome && (xsdLex b (normalize b s)).isNone
-
-/-- trigger of finding F20i: some prototype accepts a Python-only lexical form of the text / an item -/
-def pyOnlyLexical (T : SType) (text : String) : Bool :=
-  T.protos.any fun b => (if T.isList then splitWs text else [text]).any (pyOnly b)
-
 mutual
 /-- the type with every facet removed -/
 def stripFacets : SType → SType
@@ -441,14 +426,23 @@ this text (the prototypes know the builtin class only, not the facets) -/
 def facetDecides (T : SType) (text : String) : Bool :=
   T.protos.length > 1 && decode T text != decode (stripFacets T) text
 
-/-- F20g, kernel-checked: a list of a union keeps the items yielded before a failing item of an
-earlier prototype (`1 true zz` → six atoms; specification: three) -/
-theorem typed_value_list_of_union_fails :
+/-- the fixed F20g, kernel-checked: a list of a union is decoded item by item (`1 true zz` → three
+atoms; the pinned tree yielded six) and agrees with the specification -/
+theorem list_of_union_decoded_per_item :
     let u : SType := .union none [.builtin .int, .builtin .boolean, .builtin .string]
-    atomicSequence (.list none u) "1 true zz" =
-      .ok [⟨.int, "1"⟩, ⟨.boolean, "true"⟩, ⟨.boolean, "true"⟩, ⟨.string, "1"⟩, ⟨.string, "true"⟩, ⟨.string, "zz"⟩] ∧
-    decode (.list none u) "1 true zz" = some [⟨.int, "1"⟩, ⟨.boolean, "true"⟩, ⟨.string, "zz"⟩] ∧
-    listOfUnionMixed (.list none u) "1 true zz" = true := by decide
+    atomicSequence (.list none u) "1 true zz" = .ok [⟨.int, "1"⟩, ⟨.boolean, "true"⟩, ⟨.string, "zz"⟩] ∧
+    decode (.list none u) "1 true zz" = some [⟨.int, "1"⟩, ⟨.boolean, "true"⟩, ⟨.string, "zz"⟩] := by decide
+
+/-- the fixed F20i, kernel-checked: `1e5`, `inf`, `nan` in `union(xs:decimal, xs:double, xs:string)`
+are strings (`1e5` a double), as the XSD lexical spaces say -/
+theorem python_lexicals_rejected :
+    let u : SType := .union none [.builtin .decimal, .builtin .double, .builtin .string]
+    ["1e5", "inf", "nan", "Infinity", "INF"].map (atomicSequence u) =
+      [.ok [⟨.double, "1e5"⟩], .ok [⟨.string, "inf"⟩], .ok [⟨.string, "nan"⟩], .ok [⟨.string, "Infinity"⟩],
+       .ok [⟨.double, "INF"⟩]] ∧
+    ["1e5", "inf", "nan", "Infinity", "INF"].map (decode u) =
+      [some [⟨.double, "1e5"⟩], some [⟨.string, "inf"⟩], some [⟨.string, "nan"⟩], some [⟨.string, "Infinity"⟩],
+       some [⟨.double, "INF"⟩]] := by decide
 
 /-- F20h, kernel-checked: a union member that is a list is skipped by `iter_atomic_values`, so
 `1 2` in `union(list of xs:int, xs:string)` is decoded as one string -/
@@ -522,45 +516,7 @@ theorem typed_value_eq_spec (T : SType) (b : B) (hT : atomicBase? T = some b)
     (vs : List Atom) (h : decode T s = some vs) : atomicSequence T s = .ok vs := by
   obtain ⟨a, rfl, ha⟩ := decode_atomic hT h
   have hpy := pyDecode_of_xsdLex b s h1 a ha
-  simp [atomicSequence, protos_atomic hT, isList_atomic hT, atomicLoop, tryProto, hpy]
-
-/-- the item loop of `get_atomic_sequence` on a list whose items are all valid -/
-theorem tryItems_valid (item : SType) (b : B) (hT : atomicBase? item = some b) :
-    ∀ (toks : List String), (∀ w ∈ toks, (splitWs w).length ≤ 1) →
-    ∀ (acc vs : List Atom), decodeItems (decode item) toks = some vs →
-      tryItems b toks (acc, true) = (acc ++ vs, true)
-  | [], _, acc, vs, h => by simp [decodeItems] at h; subst h; simp [tryItems]
-  | w :: ws, htok, acc, vs, h => by
-    simp only [decodeItems] at h
-    cases hw : decode item w with
-    | none => rw [hw] at h; simp at h
-    | some aw =>
-      cases hr : decodeItems (decode item) ws with
-      | none => rw [hw, hr] at h; simp at h
-      | some r =>
-        rw [hw, hr] at h
-        simp only [Option.some.injEq] at h
-        subst h
-        obtain ⟨a, rfl, ha⟩ := decode_atomic hT hw
-        have hpy := pyDecode_of_xsdLex b w (htok w List.mem_cons_self) a ha
-        have ih := tryItems_valid item b hT ws (fun x hx => htok x (List.mem_cons_of_mem _ hx)) (acc ++ [a]) r hr
-        unfold tryItems at ih ⊢
-        simp only [List.foldl_cons, if_true, hpy]
-        rw [ih]
-        simp
-
-/-- **typed value = specification value, list types.**  For every list (named or not) of an atomic
-item type and EVERY text: if all items are valid literals of the item type (split on XSD white
-space, each item decoded by the item type's lexical mapping, facets included) with values `vs`,
-`get_atomic_sequence` yields exactly `vs`. -/
-theorem typed_value_eq_spec_list (n : Option String) (item : SType) (b : B)
-    (hT : atomicBase? item = some b) (s : String) (vs : List Atom)
-    (h : decode (.list n item) s = some vs) : atomicSequence (.list n item) s = .ok vs := by
-  simp only [decode] at h
-  have hitems := tryItems_valid item b hT (splitWs s) (fun w hw => token_single s w hw) [] vs h
-  simp only [atomicSequence, protos_list_atomic hT, SType.isList, atomicLoop, tryProto, if_true]
-  rw [hitems]
-  simp
+  simp [atomicSequence, protos_atomic hT, isList_atomic hT, atomicLoop, decodeAll, firstProto, hpy]
 
 /-- all members are builtins -/
 def builtinMembers : List SType → Option (List B)
@@ -579,70 +535,105 @@ theorem iterValuesL_builtins : ∀ {ms : List SType} {bs : List B}, builtinMembe
   | .list _ _ :: _, _, h => by simp [builtinMembers] at h
   | .union _ _ :: _, _, h => by simp [builtinMembers] at h
 
-/-- the prototype loop on a union of builtins: the first member whose lexical mapping accepts the
-literal decides, provided no earlier prototype's Python constructor accepts a non-XSD form -/
-theorem atomicLoop_union : ∀ {ms : List SType} {bs : List B}, builtinMembers ms = some bs →
-    ∀ (s : String), (splitWs s).length ≤ 1 → (∀ b ∈ bs, pyOnly b s = false) →
-    ∀ (vs : List Atom) (failed : Bool), decodeFirst ms s = some vs →
-      atomicLoop false s bs [] failed = .ok vs
-  | [], _, _, _, _, _, _, _, h => by simp [decodeFirst] at h
-  | .builtin b :: ms, bs, hm, s, h1, hpo, vs, failed, h => by
+/-- the prototype loop on one literal = "the first member type, in declaration order, in which the
+literal is valid" (XSD 1.1 Part 2 §2.4.1.3), for builtin members and a one-token literal -/
+theorem firstProto_eq_decodeFirst : ∀ {ms : List SType} {bs : List B}, builtinMembers ms = some bs →
+    ∀ (s : String), (splitWs s).length ≤ 1 → decodeFirst ms s = (firstProto bs s).map ([·])
+  | [], _, hm, s, _ => by simp [builtinMembers] at hm; subst hm; rfl
+  | .builtin b :: ms, bs, hm, s, h1 => by
     simp only [builtinMembers, Option.map_eq_some_iff] at hm
     obtain ⟨bs', hb, rfl⟩ := hm
-    simp only [decodeFirst, decode] at h
-    cases hx : xsdLex b (normalize b s) with
-    | some a =>
-      rw [hx] at h
-      simp only [Option.map_some, Option.some.injEq] at h
-      subst h
-      have hpy := pyDecode_of_xsdLex b s h1 a hx
-      simp [atomicLoop, tryProto, hpy]
-    | none =>
-      rw [hx] at h
-      simp only [Option.map_none] at h
-      have hpn : pyDecode b s = none := by
-        have := hpo b List.mem_cons_self
-        simp only [pyOnly, hx, Option.isNone_none, Bool.and_true] at this
-        cases hp : pyDecode b s with
-        | none => rfl
-        | some v => rw [hp] at this; simp at this
-      simp only [atomicLoop, tryProto, hpn, Bool.false_eq_true, if_false]
-      exact atomicLoop_union hb s h1 (fun b' hb' => hpo b' (List.mem_cons_of_mem _ hb')) vs true h
-  | .restr _ _ _ :: _, _, hm, _, _, _, _, _, _ => by simp [builtinMembers] at hm
-  | .list _ _ :: _, _, hm, _, _, _, _, _, _ => by simp [builtinMembers] at hm
-  | .union _ _ :: _, _, hm, _, _, _, _, _, _ => by simp [builtinMembers] at hm
+    simp only [decodeFirst, decode, firstProto, pyDecode_eq_xsdLex b s h1]
+    cases xsdLex b (normalize b s) with
+    | some a => rfl
+    | none => exact firstProto_eq_decodeFirst hb s h1
+  | .restr _ _ _ :: _, _, hm, _, _ => by simp [builtinMembers] at hm
+  | .list _ _ :: _, _, hm, _, _ => by simp [builtinMembers] at hm
+  | .union _ _ :: _, _, hm, _, _ => by simp [builtinMembers] at hm
 
-/-- **typed value = specification value, unions of builtins** — PARTIAL (F20i).
-For a union (named or not) whose members are builtins, and a one-token text that no prototype's
-Python constructor accepts outside the XSD lexical space (`pyOnlyLexical = false`): the value in
-the FIRST member type, in declaration order, in which the literal is valid is exactly what
-`get_atomic_sequence` yields.  Without the hypothesis the statement is false
-(`typed_value_union_python_lexical`). -/
-theorem typed_value_eq_spec_union_partial (n : Option String) (ms : List SType) (bs : List B)
-    (hm : builtinMembers ms = some bs) (s : String) (h1 : (splitWs s).length ≤ 1)
-    (hpo : pyOnlyLexical (.union n ms) s = false) (vs : List Atom)
-    (h : decode (.union n ms) s = some vs) : atomicSequence (.union n ms) s = .ok vs := by
-  have hprotos : (SType.union n ms).protos = bs := by
+/-- the item loop = the per-item specification, for items that are single tokens -/
+theorem decodeAll_eq_decodeItems {ms : List SType} {bs : List B} (hm : builtinMembers ms = some bs) :
+    ∀ (toks : List String), (∀ w ∈ toks, (splitWs w).length ≤ 1) →
+      decodeItems (decodeFirst ms) toks = decodeAll bs toks
+  | [], _ => rfl
+  | w :: ws, htok => by
+    simp only [decodeItems, decodeAll, firstProto_eq_decodeFirst hm w (htok w List.mem_cons_self),
+      decodeAll_eq_decodeItems hm ws (fun x hx => htok x (List.mem_cons_of_mem _ hx))]
+    cases firstProto bs w <;> cases decodeAll bs ws <;> simp
+
+/-- **typed value = specification value, unions of builtins** — FULL (since fixes F20a, F20i):
+for a union (named or not) with at least one member, all members builtins, and every one-token
+text: `get_atomic_sequence` yields the value in the FIRST member type, in declaration order, in which
+the literal is valid, and raises exactly when no member accepts it. -/
+theorem typed_value_eq_spec_union (n : Option String) (ms : List SType) (b : B) (bs : List B)
+    (hm : builtinMembers ms = some (b :: bs)) (s : String) (h1 : (splitWs s).length ≤ 1) :
+    atomicSequence (.union n ms) s =
+      match decode (.union n ms) s with
+      | some vs => .ok vs
+      | none => .err := by
+  have hprotos : (SType.union n ms).protos = b :: bs := by
     simp [SType.protos, SType.iterValues, iterValuesL_builtins hm]
-  simp only [decode] at h
-  simp only [pyOnlyLexical, hprotos, SType.isList, Bool.false_eq_true, if_false, List.any_cons,
-    List.any_nil, Bool.or_false, List.any_eq_false] at hpo
-  simp only [atomicSequence, hprotos, SType.isList]
-  exact atomicLoop_union hm s h1 (fun b hb => by simpa using hpo b hb) vs false h
+  simp only [decode, firstProto_eq_decodeFirst hm s h1, atomicSequence, hprotos, SType.isList, atomicLoop,
+    Bool.false_eq_true, if_false, decodeAll]
+  cases firstProto (b :: bs) s <;> rfl
 
-/-- F20i, kernel-checked: `1e5` in `union(xs:decimal, xs:string)` -/
-theorem typed_value_union_python_lexical :
-    let u : SType := .union none [.builtin .decimal, .builtin .string]
-    atomicSequence u "1e5" = .ok [⟨.decimal, "py:1e5"⟩] ∧ decode u "1e5" = some [⟨.string, "1e5"⟩] ∧
-    pyOnlyLexical u "1e5" = true := by decide
+/-- **typed value = specification value, lists of a union of builtins** — FULL (since fix F20g):
+EVERY text is decoded item by item, each item by the first member that accepts it; the decoder
+raises exactly when some item is valid for no member. -/
+theorem typed_value_eq_spec_list_of_union (n m : Option String) (ms : List SType) (b : B) (bs : List B)
+    (hm : builtinMembers ms = some (b :: bs)) (s : String) :
+    atomicSequence (.list n (.union m ms)) s =
+      match decode (.list n (.union m ms)) s with
+      | some vs => .ok vs
+      | none => .err := by
+  have hprotos : (SType.list n (.union m ms)).protos = b :: bs := by
+    simp [SType.protos, SType.iterValues, iterValuesL_builtins hm]
+  simp only [decode, atomicSequence, hprotos, SType.isList, atomicLoop, if_true]
+  have := decodeAll_eq_decodeItems hm (splitWs s) (fun w hw => token_single s w hw)
+  show _ = match decodeItems (decodeFirst ms) (splitWs s) with | some vs => TV.ok vs | none => TV.err
+  rw [this]
+  cases decodeAll (b :: bs) (splitWs s) <;> rfl
+
+/-- the item loop of `get_atomic_sequence` on a list of an atomic item type whose items are all valid -/
+theorem decodeAll_valid (item : SType) (b : B) (hT : atomicBase? item = some b) :
+    ∀ (toks : List String), (∀ w ∈ toks, (splitWs w).length ≤ 1) →
+    ∀ (vs : List Atom), decodeItems (decode item) toks = some vs → decodeAll [b] toks = some vs
+  | [], _, vs, h => by simp [decodeItems] at h; subst h; rfl
+  | w :: ws, htok, vs, h => by
+    simp only [decodeItems] at h
+    cases hw : decode item w with
+    | none => rw [hw] at h; simp at h
+    | some aw =>
+      cases hr : decodeItems (decode item) ws with
+      | none => rw [hw, hr] at h; simp at h
+      | some r =>
+        rw [hw, hr] at h
+        simp only [Option.some.injEq] at h
+        subst h
+        obtain ⟨a, rfl, ha⟩ := decode_atomic hT hw
+        have hpy := pyDecode_of_xsdLex b w (htok w List.mem_cons_self) a ha
+        have ih := decodeAll_valid item b hT ws (fun x hx => htok x (List.mem_cons_of_mem _ hx)) r hr
+        simp [decodeAll, firstProto, hpy, ih]
+
+/-- **typed value = specification value, list types.**  For every list (named or not) of an atomic
+item type and EVERY text: if all items are valid literals of the item type (split on XSD white
+space, each item decoded by the item type's lexical mapping, facets included) with values `vs`,
+`get_atomic_sequence` yields exactly `vs`. -/
+theorem typed_value_eq_spec_list (n : Option String) (item : SType) (b : B)
+    (hT : atomicBase? item = some b) (s : String) (vs : List Atom)
+    (h : decode (.list n item) s = some vs) : atomicSequence (.list n item) s = .ok vs := by
+  simp only [decode] at h
+  have hitems := decodeAll_valid item b hT (splitWs s) (fun w hw => token_single s w hw) vs h
+  simp [atomicSequence, protos_list_atomic hT, SType.isList, atomicLoop, hitems]
 
 /-- TEST: the hypotheses of the value-level theorems hold on non-trivial inputs -/
 example : decode (.restr (some "d") (.builtin .decimal) {}) " +01.50 " = some [⟨.decimal, "1.5"⟩] ∧
     (splitWs " +01.50 ").length ≤ 1 ∧
     decode (.list none (.builtin .unsignedByte)) " 1  255\n7 " = some [⟨.unsignedByte, "1"⟩, ⟨.unsignedByte, "255"⟩, ⟨.unsignedByte, "7"⟩] ∧
     builtinMembers [.builtin .byte, .builtin .boolean, .builtin .token] = some [.byte, .boolean, .token] ∧
-    pyOnlyLexical (.union none [.builtin .byte, .builtin .boolean, .builtin .token]) " 300 " = false ∧
-    decode (.union none [.builtin .byte, .builtin .boolean, .builtin .token]) " 300 " = some [⟨.token, "300"⟩] := by
+    decode (.union none [.builtin .byte, .builtin .boolean, .builtin .token]) " 300 " = some [⟨.token, "300"⟩] ∧
+    decode (.union none [.builtin .byte, .builtin .boolean]) "300" = none ∧
+    atomicSequence (.union none [.builtin .byte, .builtin .boolean]) "300" = .err := by
   decide
 
 /-- **`instance of` is closed under base types** (`element(*, T)` / `attribute(*, T)` for the
@@ -690,12 +681,12 @@ a schema-bound parser on the schema-typed tree selects exactly the nodes that sc
 selects on the plain tree".  It is false on the pinned tree in two ways (`selection_fails_star_root`,
 `selection_fails_default_attribute`); it holds for every schema without attribute value
 constraints, every tree, every expression of the path language `E` (child / descendant /
-descendant-or-self / self / attribute steps, names, `*`, `node()`, positional, existence, count,
-boolean predicates) — unless the tree is passed as an element (`dummyDoc`) and the expression
+descendant-or-self / self / attribute / parent / ancestor / following-sibling / preceding-sibling
+steps, names, `*`, `node()`, positional, existence, count, boolean predicates) — unless the tree is passed as an element (`dummyDoc`) and the expression
 applies an abbreviated `*` step to the document node (`starAtDoc`). -/
 theorem selection_type_erasure_partial (s : Schema) (hd : NoAttrDefaults s) (t : Forest Unit)
     (ht : t ≠ .nil) (dummyDoc : Bool) (e : E) (hb : (dummyDoc && starAtDoc false e) = false) :
-    select (Cfg.typed s dummyDoc) (!dummyDoc) (applySchema s t) e = select Cfg.plain (!dummyDoc) t e := by
+    select (Cfg.typed s dummyDoc) (!dummyDoc) (applySchema s t) e = select (Cfg.plain dummyDoc) (!dummyDoc) t e := by
   -- step 1: the dropRoot flag is irrelevant for this expression
   have h1 : select (Cfg.typed s dummyDoc) (!dummyDoc) (applySchema s t) e =
       select ((Cfg.typed s dummyDoc).withDrop false) (!dummyDoc) (applySchema s t) e := by
@@ -724,13 +715,13 @@ theorem selection_type_erasure_partial (s : Schema) (hd : NoAttrDefaults s) (t :
           have := sibs_noDoc _ 0 x (by rw [hs]; exact List.mem_cons_self)
           simp only at h
           rw [this] at h; cases h
-      have := (eval_withDrop (Cfg.typed s true) (.doc (applySchema s t)) e false
+      have := (eval_withDrop (Cfg.typed s true) rfl (.doc (applySchema s t)) e false
         (startItem (!true) (applySchema s t)) 1 1 hstart hb).1
       show sortIdx (List.filterMap Item.idx? (eval ((Cfg.typed s true).withDrop true) _ e _ 1 1).1) = _
       rw [this]
   -- step 2: relabelling by `erase`
-  have hag : Agree (fun _ : Ann => ()) ((Cfg.typed s dummyDoc).withDrop false) Cfg.plain :=
-    ⟨rfl, fun a ats => (typedAttrs_plain s hd a ats).symm⟩
+  have hag : Agree (fun _ : Ann => ()) ((Cfg.typed s dummyDoc).withDrop false) (Cfg.plain dummyDoc) :=
+    ⟨rfl, rfl, fun a ats => (typedAttrs_plain s hd a ats).symm⟩
   rw [h1, ← select_map hag (!dummyDoc) (applySchema s t) e]
   have := apply_schema_keeps_tree s t
   unfold Forest.erase at this
@@ -740,7 +731,7 @@ theorem selection_type_erasure_partial (s : Schema) (hd : NoAttrDefaults s) (t :
 changes the selection of any expression of `E` (schemas without attribute value constraints) -/
 theorem selection_type_erasure_document (s : Schema) (hd : NoAttrDefaults s) (t : Forest Unit)
     (ht : t ≠ .nil) (e : E) :
-    select (Cfg.typed s false) true (applySchema s t) e = select Cfg.plain true t e :=
+    select (Cfg.typed s false) true (applySchema s t) e = select (Cfg.plain false) true t e :=
   selection_type_erasure_partial s hd t ht false e rfl
 
 /-- F20b, kernel-checked on the model: `//*` on `<r><a/></r>` given as an element selects `r` and
@@ -748,7 +739,7 @@ theorem selection_type_erasure_document (s : Schema) (hd : NoAttrDefaults s) (t 
 theorem selection_fails_star_root :
     let t : Forest Unit := .elem () "r" [] .absent (.elem () "a" [] .absent .nil .nil) .nil
     let e : E := .step (.step .root .descOrSelf .node .ptrue .ptrue) .child .star .ptrue .ptrue
-    select Cfg.plain false t e = [0, 1] ∧
+    select (Cfg.plain true) false t e = [0, 1] ∧
     select (Cfg.typed exSchema true) false (applySchema exSchema t) e = [1] ∧
     starAtDoc false e = true := by decide
 
@@ -760,7 +751,7 @@ theorem selection_fails_default_attribute :
     let t : Forest Unit := .elem () "r" [] .absent .nil .nil
     let e : E := .step (.step .root .descOrSelf .node .ptrue .ptrue) .descOrSelf .star
                    (.exist (.step .here .attrib (.name "d") .ptrue .ptrue)) .ptrue
-    select Cfg.plain true t e = [] ∧ select (Cfg.typed s false) true (applySchema s t) e = [0] := by
+    select (Cfg.plain false) true t e = [] ∧ select (Cfg.typed s false) true (applySchema s t) e = [0] := by
   decide
 
 /-- TEST: the hypotheses of `selection_type_erasure_partial` are satisfiable with a dummy document
